@@ -3,7 +3,8 @@ EXTENDS Pipeline
 (* ---------------- case enumeration (printed once) ------------------------ *)
 VARIABLE x
 Emit(S) == \A c \in S : PrintT(ToJson(c))
-InitMethods == x = 0 /\ Emit(MethodCases)
+InitMethods == x = 0 /\ Emit(MethodCases) /\ Emit(SingletonCases({"tcp"})) /\ Emit(FreshCases)
+InitMethodsT == x = 0 /\ Emit(MethodCases) /\ Emit(SingletonCases(Transports)) /\ Emit(FreshCases)
 InitNames == x = 0 /\ Emit(NameCases)
 InitMaps == x = 0 /\ \A ls \in MappingLists : PrintT(ToJson([list |-> ls]))
 InitList == x = 0 /\ Emit(ListCases)
